@@ -224,7 +224,8 @@ End WithOracle.
 
 (* ------------------------------------------------------------------ trees reached through histories *)
 (* The property speaks of "every tree built through the API": besides the constructors, a tree is
-   reached by json_object_deep_copy, by the in-place setters json_object_set_double / _set_int64 /
+   reached by json_object_deep_copy, by attaching opaque userdata (json_object_set_userdata) or resetting
+   the serializer (json_object_set_serializer with NULL), by the in-place setters json_object_set_double / _set_int64 /
    _set_uint64 / _set_boolean / _set_string_len, by replacing a child (json_object_array_put_idx on
    an existing index, json_object_object_add on an existing key) and by deleting one
    (json_object_array_del_idx, json_object_object_del).  What the serializer reads of a node is
@@ -274,8 +275,19 @@ Definition replace_child (i : nat) (c : jv) (v : jv) : jv :=
 Definition delete_child (i : nat) (v : jv) : jv :=
   match v with JArr l => JArr (nth_del i l) | JObj l => JObj (nth_del i l) | _ => v end.
 
+(* json_object_set_serializer(n, NULL, data, del): "the default behaviour is reset (but the userdata and
+   user_delete fields are still set)".  For a double that carried a retained text the text goes away
+   (it was the old userdata); for every other node the default serializer was in place already.
+   [data] is opaque to the library: it is not part of what the serializer reads, hence not of [jv]. *)
+Definition reset_serializer_node (v : jv) : jv := match v with JDouble b _ => JDouble b None | _ => v end.
+
 Inductive hop :=
 | HCopy                                        (* json_object_deep_copy: the copy has the same value and retained texts *)
+| HResetSerializer (path : list nat)           (* json_object_set_serializer(n, NULL, any data, any deleter), also after a
+                                                  public serializer (json_object_userdata_to_json_string,
+                                                  json_object_double_to_json_string with a format) had been installed *)
+| HSetUserdata (path : list nat)               (* json_object_set_userdata(n, any data, any deleter) on a node without retained
+                                                  text (json_object.h sends retained-text doubles to set_serializer(NULL)) *)
 | HSetDouble (path : list nat) (bits : Z)
 | HSetInt64 (path : list nat) (z : Z)
 | HSetUint64 (path : list nat) (z : Z)
@@ -287,6 +299,8 @@ Inductive hop :=
 Definition hop_apply (h : hop) (v : jv) : jv :=
   match h with
   | HCopy => v
+  | HResetSerializer p => jv_at p reset_serializer_node v
+  | HSetUserdata _ => v
   | HSetDouble p bits => jv_at p (set_double_node bits) v
   | HSetInt64 p z => jv_at p (set_int64_node z) v
   | HSetUint64 p z => jv_at p (set_uint64_node z) v
